@@ -132,6 +132,29 @@ def replay(scn):
                     what = A.compare(e, act, free_kinds=True) or None
                 except A.Unprojectable as ex:
                     what = "result not projectable: %s" % ex
+            if what is None and err is None and exp["ok"] and form in ("list", "ndarray") and ak == "i" and i["method"] == "none" and not i["raise"]:
+                # the same call with the absent labels replaced by +inf / -inf / a whole number beyond the int64 range (open-ended bins):
+                # floats like any other - the axis is exactly the requested labels, the cells are those of the scenario
+                Lset = set(a_abs["labs"][d])
+                absent = [q for q, h in enumerate(i["new"]) if h not in Lset]
+                if absent and len(set(i["new"][q] for q in absent)) == len(absent):
+                    specials = [np.inf, -np.inf, 1e19]
+                    newf = [float(x) for x in codec.enc_seq(i["new"], "i" if not mixed else nk)]
+                    for n_, q in enumerate(absent[:3]):
+                        newf[q] = specials[n_]
+                    calls += 1
+                    try:
+                        ri = a.reindex_axis(newf if form == "list" else np.array(newf), axis=a_abs["dims"][d], **kw)
+                        gotl = [float(x) for x in ri.axes[d].values.tolist()]
+                        if gotl != newf:
+                            what = "labels with +-inf / 1e19: expected the axis %s got %s" % (newf, ri.axes[d].values.tolist())
+                        else:
+                            ev = [c for c in exp["val"]["cells"]]
+                            av = [A.cell_dec(x) for x in ri.values.ravel().tolist()]
+                            if ev != av:
+                                what = "labels with +-inf / 1e19: cells expected %s got %s" % (ev[:8], av[:8])
+                    except Exception as ex:  # noqa
+                        what = "labels with +-inf / 1e19: raised %s: %s" % (type(ex).__name__, str(ex)[:200])
             if what is None and err is None and exp["ok"] and form in ("list", "axis") and i["fill"] != -1 and i["method"] == "none":
                 # the same call with a fill value that is falsy (0, 0.0): it is a value like any other
                 zero = 0 if i["fkind"] == "i" else 0.0
